@@ -103,6 +103,8 @@ func builder() *index.ShardBuilder {
 	return curBuilder
 }
 
+func validUTF8(b []byte) bool { return utf8.Valid(b) }
+
 func genCase(r *gen.Rand, malformed bool) ([]byte, []entry) {
 	content := gen.Text(r, r.Range(0, 40), malformed)
 	if bytes.IndexByte(content, 0) >= 0 {
@@ -160,6 +162,7 @@ func main() {
 	r := gen.NewRand(f.Seed)
 	conv := index.VerifTagsToSections() // one converter for the whole run: exercises nlsBuf reuse
 	n := f.N(3000, 200000)
+	pipelineCases(w, r.Fork(), f.N(400, 20000))
 	for i := 0; i < n; i++ {
 		content, es := genCase(r, i%6 == 5)
 		in, impl := runCase(conv, content, es)
